@@ -3,11 +3,15 @@ package main
 import (
 	"bytes"
 	"encoding/binary"
+	"sync"
+
 	"errors"
 	"fmt"
+	"github.com/elastic/go-libaudit/v2/vshim/sched"
 	"sort"
 	"strings"
 	"syscall"
+	"verif/engine/explore"
 
 	libaudit "github.com/elastic/go-libaudit/v2"
 
@@ -341,6 +345,19 @@ func c08Sweeps(tier string) []interface{} {
 	}
 	// a kernel holding 50 realistic rule messages (audit_rule_data layout, every buflen 0..9 x tail 0..4 bytes)
 	jobs = append(jobs, Job{Kind: "c08", Histories: allHistories([]int{1, 4}, 1), NRules: 201, Bound: 1})
+	// extended acknowledgements (capped and uncapped) carrying a reason string, for verdict 0 and for errors
+	for _, x := range []int{1, 2} {
+		var sh []ksim.Shape
+		sh = append(sh, ksim.Shape{ExtAck: x})
+		for _, e := range []int{1, 2, 13, 17, 22} {
+			sh = append(sh, ksim.Shape{ExtAck: x, Errno: e, ErrnoAlways: true})
+		}
+		jobs = append(jobs, Job{Kind: "c08", Histories: single, NRules: 2, Bound: 1, Shapes: sh, Guard: true})
+	}
+	// sequence numbers handed out by the transport around the 2^32 and 2^31 marks
+	for _, st := range []uint32{1<<32 - 3, 1<<31 - 3, 1<<16 - 3} {
+		jobs = append(jobs, Job{Kind: "c08", Histories: allHistories([]int{0, 1, 2, 5}, 2), NRules: 2, Bound: 1, Shapes: []ksim.Shape{{SeqStart: st}}})
+	}
 	var errnoShapes []ksim.Shape
 	for e := 1; e <= 4095; e++ {
 		if e <= 133 || (e >= 512 && e <= 530) || e == 4095 {
@@ -351,6 +368,112 @@ func c08Sweeps(tier string) []interface{} {
 		jobs = append(jobs, Job{Kind: "c08", Histories: c, NRules: 2, Bound: 0, Shapes: errnoShapes, Guard: true})
 	}
 	return jobs
+}
+
+// ---- several clients of ONE process, each with its own kernel, running concurrently ----------------
+
+type multiHarness struct {
+	verdicts []int // errno each client's kernel answers its AddRule with
+	ops      []int // op per client (index into c08Names)
+	sims     []*ksim.Sim
+	cs       []*libaudit.AuditClient
+	errs     []error
+	got      []opObs
+	mu       sync.Mutex
+}
+
+func newMultiHarness(verdicts, ops []int) *multiHarness {
+	h := &multiHarness{verdicts: verdicts, ops: ops}
+	for _, v := range verdicts {
+		sim := ksim.New(nil)
+		sim.NoDeviations = true
+		sim.YieldAfterParse = true
+		sim.Rules = simRules(2)
+		for i := range sim.Status {
+			sim.Status[i] = uint32(0x01010101*(i+1) + v)
+		}
+		if v != 0 {
+			sim.Shape = ksim.Shape{Errno: v, ErrnoAlways: true}
+		}
+		h.sims = append(h.sims, sim)
+		h.cs = append(h.cs, &libaudit.AuditClient{Netlink: sim})
+	}
+	h.errs = make([]error, len(verdicts))
+	h.got = make([]opObs, len(verdicts))
+	return h
+}
+
+func (h *multiHarness) Body(x *sched.Exec) {
+	x.Prime = true
+	for i := range h.cs {
+		i := i
+		x.Go(fmt.Sprintf("client%d", i), func() {
+			sched.Yield("call")
+			o := doC08(h.cs[i], h.ops[i])
+			h.mu.Lock()
+			h.got[i] = o
+			h.mu.Unlock()
+		})
+	}
+}
+
+func (h *multiHarness) Finish(res *sched.Result) (string, []explore.Finding) {
+	if res != nil && (res.Deadlock || res.Panic != nil) {
+		return "aborted", nil
+	}
+	var f []explore.Finding
+	var obs []string
+	for i, o := range h.got {
+		v := h.verdicts[i]
+		name := c08Names[h.ops[i]]
+		obs = append(obs, fmt.Sprint(o.err != nil))
+		switch {
+		case v == 0 && o.err != nil:
+			f = append(f, explore.Finding{Sig: "concurrent-clients-spurious-error:" + name, What: fmt.Sprintf("client %d: %s returned %v although ITS kernel acknowledged 0 (other clients of the process ran concurrently on their own kernels: verdicts %v)", i, name, o.err, h.verdicts)})
+		case v != 0 && o.err == nil:
+			f = append(f, explore.Finding{Sig: "concurrent-clients-swallowed-errno:" + name, What: fmt.Sprintf("client %d: %s returned nil although ITS kernel answered errno %d (verdicts of all clients: %v)", i, name, v, h.verdicts)})
+		case v != 0 && !errors.Is(o.err, syscall.Errno(v)) && !strings.Contains(o.err.Error(), syscall.Errno(v).Error()):
+			f = append(f, explore.Finding{Sig: "concurrent-clients-wrong-errno:" + name, What: fmt.Sprintf("client %d: %s returned %v, its kernel answered errno %d (verdicts %v)", i, name, o.err, v, h.verdicts)})
+		case v == 0 && h.ops[i] == 0:
+			want := h.sims[i].Status
+			st := o.status
+			if st == nil || [11]uint32{uint32(st.Mask), st.Enabled, st.Failure, st.PID, st.RateLimit, st.BacklogLimit, st.Lost, st.Backlog, st.FeatureBitmap, st.BacklogWaitTime, st.BacklogWaitTimeActual} != want {
+				f = append(f, explore.Finding{Sig: "concurrent-clients-wrong-status", What: fmt.Sprintf("client %d: GetStatus returned %+v, its kernel sent %v", i, st, want)})
+			}
+		}
+	}
+	return strings.Join(obs, ","), f
+}
+
+func c08MultiPrograms() [][2][]int {
+	// (verdicts, ops): two and three clients, same op with different verdicts, and GetStatus with different statuses
+	return [][2][]int{
+		{{1, 0}, {2, 2}}, {{0, 1}, {2, 2}}, {{0, 22}, {3, 3}}, {{1, 0}, {5, 5}}, {{0, 0}, {0, 0}}, {{0, 13}, {0, 0}}, {{0, 1}, {1, 2}},
+		{{1, 0, 2}, {2, 2, 2}}, {{0, 0, 1}, {0, 0, 2}},
+	}
+}
+
+func c08Concurrent(run *ev.Run) {
+	var total int64
+	for _, p := range c08MultiPrograms() {
+		p := p
+		e := &explore.Explorer{Bound: -1, MaxExec: 100000, Horizon: 5000, NewHarness: func() explore.Harness { return newMultiHarness(p[0], p[1]) }}
+		r := e.Explore()
+		total += r.Executions
+		run.Add("traces_validated_against_impl", r.Executions)
+		run.Add("transitions", r.Executions*int64(r.MaxChoices+1))
+		for _, n := range r.Nondeterminism {
+			run.Errorf("nondeterminism: %s", n)
+		}
+		for _, f := range r.Findings {
+			if strings.HasPrefix(f.Sig, "ERROR/") {
+				run.Errorf("%s", f.What)
+				continue
+			}
+			run.Report(ev.Violation{Sig: "C08 " + f.Sig, What: f.What, Replay: map[string]interface{}{"verdicts": p[0], "ops": p[1], "schedule": f.Schedule}})
+		}
+	}
+	run.Set("concurrent_multi_client_schedules", total)
 }
 
 func checkC08(tier string) int {
@@ -424,6 +547,7 @@ func checkC08(tier string) int {
 			}
 		}
 	}
+	c08Concurrent(run)
 	run.Set("histories", len(hs)*3)
 	run.Set("deviation_bound_completed", bound)
 	if tier == "thorough" {
